@@ -451,76 +451,126 @@ fn norm_val(v: &str) -> String {
     }
 }
 
-fn parse_emitted(text: &str) -> Result<Vec<Table>, String> {
-    let mut tables = Vec::new();
-    let mut cur: Option<Table> = None;
-    for line in text.lines() {
-        let l = line.trim();
-        if let Some(rest) = l.strip_prefix("static ") {
-            let name = rest.split(':').next().unwrap_or("").to_string();
-            let ty = rest.split('[').nth(1).unwrap_or("");
-            let declared = rest.rsplit(';').next().and_then(|x| x.split(']').next()).and_then(|x| x.trim().parse().ok()).ok_or(format!("bad header {}", l))?;
-            // `[(u32, u32, V); N]`: plain triples (decided by the element type, so that an empty table is read right too)
-            let plain = ty.replace(' ', "").starts_with("(u32,u32,");
-            cur = Some(Table { name, declared, tuple: ty.starts_with('('), opaque: false, plain, entries: Vec::new() });
-            continue;
-        }
-        if l == "];" {
-            if let Some(t) = cur.take() {
-                tables.push(t);
+/// split at commas that are not inside parentheses / brackets
+fn split_top(s: &str) -> Vec<&str> {
+    let mut out = Vec::new();
+    let (mut depth, mut start) = (0i32, 0usize);
+    for (i, c) in s.char_indices() {
+        match c {
+            '(' | '[' | '{' => depth += 1,
+            ')' | ']' | '}' => depth -= 1,
+            ',' if depth == 0 => {
+                out.push(s[start..i].trim());
+                start = i + 1;
             }
-            continue;
+            _ => {}
         }
-        if let Some(t) = cur.as_mut() {
-            if l.is_empty() || t.opaque {
+    }
+    let last = s[start..].trim();
+    if !last.is_empty() {
+        out.push(last);
+    }
+    out
+}
+
+/// `Codepoints::Single(x)` / `Codepoints::Range(RangeInclusive::new(a, b))` / `Codepoints::Range(a..=b)` and the same
+/// through constructor functions of any capitalisation (`Codepoints::single(x)`, `Codepoints::range(a, b)`)
+fn parse_codepoints_expr(e: &str) -> Option<(u32, u32, bool)> {
+    let rest = e.trim().strip_prefix("Codepoints::")?;
+    let open = rest.find('(')?;
+    let (name, args) = (rest[..open].to_ascii_lowercase(), rest[open + 1..].trim().strip_suffix(')')?.trim());
+    match name.as_str() {
+        "single" => intval(args).map(|v| (v, v, false)),
+        "range" => {
+            let inner = match args.find("RangeInclusive::new(") {
+                Some(k) => args[k + "RangeInclusive::new(".len()..].strip_suffix(')')?,
+                None => args,
+            };
+            let (a, b) = inner.split_once("..=").or_else(|| inner.split_once(','))?;
+            Some((intval(a)?, intval(b)?, true))
+        }
+        _ => None,
+    }
+}
+
+/// Reads the tables out of an emitted file. Layout-independent within reason: any number of entries per line,
+/// comments and doc comments anywhere, entries as Codepoints expressions (alone or first in a tuple) or plain
+/// `(first, last, value)` integer triples. A table whose items are anything else is `opaque` (never judged).
+fn parse_emitted(text: &str) -> Result<Vec<Table>, String> {
+    // drop comments (no string literals occur in the emitted tables)
+    let clean: String = text.lines().map(|l| l.split("//").next().unwrap_or("")).collect::<Vec<_>>().join("\n");
+    let mut tables = Vec::new();
+    let mut pos = 0usize;
+    while let Some(k) = clean[pos..].find("static ").or_else(|| clean[pos..].find("const ")) {
+        let at = pos + k;
+        let kw = if clean[at..].starts_with("static ") { 7 } else { 6 };
+        let head_end = match clean[at..].find('=') {
+            Some(e) => at + e,
+            None => break,
+        };
+        let head = &clean[at + kw..head_end];
+        // only array items: `NAME: [T; N]` (anything else - `const fn`, a scalar constant - is skipped by its keyword
+        // only, so that the `=` of a later table is not swallowed)
+        let (name, ty) = match head.split_once(':') {
+            Some((n, t)) if t.trim().starts_with('[') && n.trim().chars().all(|c| c.is_ascii_alphanumeric() || c == '_') => (n.trim().to_string(), t.trim()),
+            _ => {
+                pos = at + kw;
                 continue;
             }
-            if !l.contains("Codepoints::") {
-                // another representation of the same thing: rows `(first, last, value)` of plain integers
-                let inner = l.trim_end_matches(',').trim();
-                let triple = inner.strip_prefix('(').and_then(|x| x.strip_suffix(')')).and_then(|x| {
-                    let mut it = x.splitn(3, ',');
-                    let (a, b, v) = (it.next()?, it.next()?, it.next()?);
-                    Some((intval(a)?, intval(b)?, norm_val(v)))
-                });
-                match triple {
-                    Some((a, b, v)) if t.plain => {
-                        t.entries.push((a, b, true, v));
-                    }
-                    _ => {
-                        t.opaque = true;
-                        t.entries.clear();
+        };
+        pos = head_end + 1;
+        let semi = ty.rfind(';').ok_or(format!("bad header {}", head.trim()))?;
+        let elem = ty[1..semi].trim();
+        let declared: usize = ty[semi + 1..].trim().trim_end_matches(']').trim().parse().map_err(|_| format!("bad header {}", head.trim()))?;
+        // body: from the '[' after '=' to the matching ']'
+        let open = match clean[pos..].find('[') {
+            Some(o) => pos + o,
+            None => return Err(format!("no body for {}", name)),
+        };
+        let mut depth = 0i32;
+        let mut close = None;
+        for (i, c) in clean[open..].char_indices() {
+            match c {
+                '[' | '(' | '{' => depth += 1,
+                ']' | ')' | '}' => {
+                    depth -= 1;
+                    if depth == 0 {
+                        close = Some(open + i);
+                        break;
                     }
                 }
-                continue;
-            }
-            if t.plain {
-                t.opaque = true;
-                t.entries.clear();
-                continue;
-            }
-            let (cps, val) = if t.tuple {
-                let inner = l.trim_start_matches('(').trim_end_matches(',').trim_end_matches(')');
-                // value is after the last ", " that follows the Codepoints expression
-                let close = if inner.starts_with("Codepoints::Range(std::ops::RangeInclusive::new(") { inner.find("))").map(|i| i + 2) } else { inner.find(')').map(|i| i + 1) }.ok_or(format!("bad entry {}", l))?;
-                (inner[..close].to_string(), norm_val(inner[close..].trim_start_matches(',')))
-            } else {
-                (l.trim_end_matches(',').to_string(), String::new())
-            };
-            if let Some(x) = cps.strip_prefix("Codepoints::Single(") {
-                let v = intval(x.trim_end_matches(')')).ok_or(format!("bad single {}", l))?;
-                t.entries.push((v, v, false, val));
-            } else if let Some(x) = cps.strip_prefix("Codepoints::Range(std::ops::RangeInclusive::new(") {
-                let x = x.trim_end_matches(')');
-                let (a, b) = x.split_once(',').ok_or(format!("bad range {}", l))?;
-                t.entries.push((intval(a).ok_or("hex")?, intval(b).ok_or("hex")?, true, val));
-            } else if let Some((a, b)) = cps.strip_prefix("Codepoints::Range(").and_then(|x| x.trim_end_matches(')').split_once("..=")) {
-                // the same range written as a range expression
-                t.entries.push((intval(a).ok_or(format!("bad range {}", l))?, intval(b).ok_or(format!("bad range {}", l))?, true, val));
-            } else {
-                return Err(format!("unrecognised entry line: {}", l));
+                _ => {}
             }
         }
+        let close = close.ok_or(format!("unterminated body of {}", name))?;
+        let body = &clean[open + 1..close];
+        pos = close + 1;
+        let tuple = elem.starts_with('(');
+        let plain = elem.replace(' ', "").starts_with("(u32,u32,");
+        let mut t = Table { name, declared, tuple, opaque: false, plain, entries: Vec::new() };
+        for item in split_top(body) {
+            let parsed = if tuple {
+                item.strip_prefix('(').and_then(|x| x.strip_suffix(')')).and_then(|inner| {
+                    let parts = split_top(inner);
+                    if plain {
+                        (parts.len() == 3).then(|| Some((intval(parts[0])?, intval(parts[1])?, true, norm_val(parts[2])))).flatten()
+                    } else {
+                        (parts.len() == 2).then(|| parse_codepoints_expr(parts[0]).map(|(a, b, r)| (a, b, r, norm_val(parts[1])))).flatten()
+                    }
+                })
+            } else {
+                parse_codepoints_expr(item).map(|(a, b, r)| (a, b, r, String::new()))
+            };
+            match parsed {
+                Some(e) => t.entries.push(e),
+                None => {
+                    t.opaque = true;
+                    t.entries.clear();
+                    break;
+                }
+            }
+        }
+        tables.push(t);
     }
     Ok(tables)
 }
